@@ -303,6 +303,23 @@ def order_source(g: CFG, n: Node, e: ast.AST, fn_has_param, depth: int = 24) -> 
                     out.add("empty")
                 else:
                     out.add(f"unknown:{d.text()[:50]}")
+            elif (isinstance(v, (ast.Dict, ast.List)) and not (v.keys if isinstance(v, ast.Dict) else v.elts)) or (
+                isinstance(v, ast.Call) and isinstance(v.func, ast.Name) and v.func.id in ("dict", "list") and not v.args):
+                # accumulator filled in a loop: it takes the order of the loop's iterable
+                blds = collection_builds(g, None, e.id)
+                if not blds:
+                    out.add("empty")
+                for b in blds:
+                    tn = set(b.target_names())
+                    key_ok = b.key is None or (isinstance(b.key, ast.Name) and b.key.id in tn) or (
+                        isinstance(b.key, ast.JoinedStr) and any(isinstance(x, ast.Name) and x.id in tn for x in ast.walk(b.key)))
+                    if not b.unconditional:
+                        out.add(f"filtered:{b!r}"[:80])
+                    elif not key_ok:
+                        out.add(f"collapsed:{b!r}"[:80])
+                    else:
+                        hd = g.nodes[b.node.loops[-1]] if b.node.loops else b.node
+                        out |= order_source(g, hd, b.src, fn_has_param, depth - 1)
             else:
                 out |= order_source(g, d, v, fn_has_param, depth - 1)
         return out
@@ -335,3 +352,113 @@ def order_source(g: CFG, n: Node, e: ast.AST, fn_has_param, depth: int = 24) -> 
     if isinstance(e, ast.Starred):
         return order_source(g, n, e.value, fn_has_param, depth - 1)
     return {f"unknown:{ast.unparse(e)[:60]}"}
+
+
+# --------------------------------------------------------------------------
+# collection content model: comprehension  <->  accumulate-in-a-loop
+# --------------------------------------------------------------------------
+
+
+class Build:
+    """One way a local collection gets its elements: `elt` for `target` in `src` [if ifs]."""
+
+    def __init__(self, src, elt, target, ifs, unconditional, node, key=None):
+        self.src, self.elt, self.target, self.ifs, self.unconditional, self.node, self.key = src, elt, target, ifs, unconditional, node, key
+
+    def target_names(self) -> List[str]:
+        return [x.id for x in ast.walk(self.target) if isinstance(x, ast.Name)]
+
+    def __repr__(self):
+        return f"<Build {ast.unparse(self.elt)} for {ast.unparse(self.target)} in {ast.unparse(self.src)} ifs={[ast.unparse(i) for i in self.ifs]} uncond={self.unconditional}>"
+
+
+def collection_builds(g: CFG, fn_node: ast.AST, name: str) -> List[Build]:
+    """How is local collection `name` filled?  Recognises
+         name = [/{ elt for target in src if ... }/]      (also wrapped in set()/list()/sorted())
+         name = set()/[]/{} ... for target in src: ...; name.add/append(elt)   (also name[k] = v)
+    """
+    out: List[Build] = []
+    for n in g.nodes.values():
+        a = n.ast
+        if n.kind == "stmt" and isinstance(a, (ast.Assign, ast.AnnAssign)):
+            tgt = a.targets[0] if isinstance(a, ast.Assign) else a.target
+            v = a.value
+            if isinstance(tgt, ast.Name) and tgt.id == name and v is not None:
+                inner = v
+                while isinstance(inner, ast.Call) and isinstance(inner.func, ast.Name) and inner.func.id in ("set", "list", "tuple", "frozenset", "sorted", "dict") and len(inner.args) >= 1:
+                    inner = inner.args[0]
+                if isinstance(inner, (ast.ListComp, ast.SetComp, ast.GeneratorExp)) and len(inner.generators) == 1:
+                    gen = inner.generators[0]
+                    out.append(Build(gen.iter, inner.elt, gen.target, list(gen.ifs), not gen.ifs, n))
+                elif isinstance(inner, ast.DictComp) and len(inner.generators) == 1:
+                    gen = inner.generators[0]
+                    out.append(Build(gen.iter, inner.value, gen.target, list(gen.ifs), not gen.ifs, n, key=inner.key))
+    for n in g.nodes.values():
+        if not n.loops:
+            continue
+        for c in calls_at(n):
+            if isinstance(c.func, ast.Attribute) and c.func.attr in ("add", "append") and isinstance(c.func.value, ast.Name) and c.func.value.id == name and len(c.args) == 1:
+                h = g.nodes[n.loops[-1]]
+                if h.kind != "for":
+                    continue
+                starts = [d for lab, d in h.succ if lab == "T"]
+                r = g.reach(starts, skip_node=lambda x, n=n: x.id == n.id, skip_edge=lambda a_, l, b_: l == "exc")
+                uncond = h.id not in r
+                # collect the (positive) test atoms guarding the add inside the loop body
+                ifs = []
+                if not uncond:
+                    for t in g.nodes.values():
+                        if t.kind == "test" and h.id in t.loops:
+                            ifs.append(t.ast)
+                out.append(Build(h.ast.iter, c.args[0], h.ast.target, ifs, uncond, n))
+        a = n.ast
+        if n.kind == "stmt" and isinstance(a, ast.Assign) and isinstance(a.targets[0], ast.Subscript) and isinstance(a.targets[0].value, ast.Name) and a.targets[0].value.id == name:
+            h = g.nodes[n.loops[-1]]
+            if h.kind == "for":
+                starts = [d for lab, d in h.succ if lab == "T"]
+                r = g.reach(starts, skip_node=lambda x, n=n: x.id == n.id, skip_edge=lambda a_, l, b_: l == "exc")
+                out.append(Build(h.ast.iter, a.value, h.ast.target, [], h.id not in r, n, key=a.targets[0].slice))
+    return out
+
+
+def value_alts(g: CFG, n: Node, e: ast.AST, depth: int = 2) -> List[ast.AST]:
+    """Flow-sensitive alias expansion: alternatives for the value of e at node n, following
+    reaching definitions of plain names (tuple assignments are split component-wise)."""
+    out = [e]
+    if depth <= 0 or not isinstance(e, ast.Name):
+        return out
+    for d in reaching_defs(g, n.id, e.id):
+        a = d.ast
+        v = None
+        if isinstance(a, ast.Assign):
+            for t in a.targets:
+                if isinstance(t, ast.Name) and t.id == e.id:
+                    v = a.value
+                elif isinstance(t, (ast.Tuple, ast.List)) and isinstance(a.value, (ast.Tuple, ast.List)) and len(t.elts) == len(a.value.elts):
+                    for tt, vv in zip(t.elts, a.value.elts):
+                        if isinstance(tt, ast.Name) and tt.id == e.id:
+                            v = vv
+        elif isinstance(a, ast.AnnAssign) and a.value is not None:
+            v = a.value
+        if v is not None:
+            out.append(v)
+            if isinstance(v, ast.Name):
+                out += value_alts(g, d, v, depth - 1)[1:]
+    return out
+
+
+def eq_edge(t: Node, lab: Optional[str], a: str, b: str) -> Optional[bool]:
+    """If t is the test `a == b` / `a != b` (either operand order; a, b given as normalised text),
+    return True when the edge `lab` means 'equal', False when it means 'unequal', else None."""
+    e = t.ast
+    if t.kind != "test" or not (isinstance(e, ast.Compare) and len(e.ops) == 1 and isinstance(e.ops[0], (ast.Eq, ast.NotEq, ast.Is, ast.IsNot))):
+        return None
+    sides = {ast.unparse(e.left), ast.unparse(e.comparators[0])}
+    if sides != {a, b}:
+        return None
+    is_eq_op = isinstance(e.ops[0], (ast.Eq, ast.Is))
+    if lab == "T":
+        return is_eq_op
+    if lab == "F":
+        return not is_eq_op
+    return None
